@@ -20,6 +20,7 @@ package key
 
 //@ # ---------------------------------------------------------------- C10: casts keep the blob
 //@ func CastSSHPublicKeyToCertificate(key)
+//@   flag logged
 //@   requires key != nil
 //@   ensures err != nil ==> result0 == nil
 //@   ensures [certificates-only] err == nil ==> (result0 != nil && certBlob(blobid(key)))
